@@ -20,6 +20,7 @@ fn main() {
         "c28" => c28::run(&args),
         "c27rounds" => rounds::run(&args),
         "c26" => c26::run(&args),
+        "c26sys" => c26sys::run(&args),
         "c25" => c25::run(&args),
         other => {
             eprintln!("unknown subcommand {other}");
@@ -481,7 +482,7 @@ mod c26 {
         panic: Option<String>,
     }
 
-    const BLOCK: Duration = Duration::from_millis(400);
+    const BLOCK: Duration = Duration::from_millis(120);
     const HANG: Duration = Duration::from_secs(10);
 
     fn model_url(name: &str) -> RelayUrl {
@@ -764,7 +765,7 @@ mod c25 {
     const B: &str = "c25.before_try_run";
     const C: &str = "c25.before_done_send";
     const STEP: Duration = Duration::from_secs(20);
-    const SETTLE: Duration = Duration::from_millis(900);
+    const SETTLE: Duration = Duration::from_millis(600);
 
     struct Drv {
         ep: Endpoint,
@@ -848,7 +849,8 @@ mod c25 {
                             "c26.clear" => "clear",
                             "c26.read" => "read",
                             "c26.write" => "write",
-                            _ => "done",
+                            "c26.status_done" => "done",
+                            _ => continue,
                         };
                         let home = self.url_name(f.get("home").map(|s| s.as_str()).unwrap_or(""));
                         let actor = self.url_name(f.get("actor").map(|s| s.as_str()).unwrap_or(""));
@@ -935,8 +937,33 @@ mod c25 {
             self.ep.insert_relay(self.url.clone(), self.cfg.clone()).await;
         }
         /// Brings the endpoint back to: no run, no queued update, no pause armed.
+        /// Whether the last word left the endpoint with nothing queued and nothing in flight.
+        fn ended_clean(&self) -> bool {
+            let last_try = self.log.iter().rev().find(|e| e.ev == "try_run");
+            let last_sched = self.log.iter().rposition(|e| e.ev == "schedule");
+            let last_try_pos = self.log.iter().rposition(|e| e.ev == "try_run");
+            self.log.last().map(|e| e.ev == "quiescent" && e.lock == "free").unwrap_or(false)
+                && last_try.map(|e| e.lock == "free" && !e.want).unwrap_or(false)
+                && last_sched < last_try_pos
+                && self.count("done_sent") == self.count("try_run")
+        }
         async fn cleanup(&mut self) -> Result<(), String> {
             self.release_all();
+            if self.ended_clean() {
+                if !self.settle(Duration::from_secs(60)).await {
+                    return Err("endpoint did not settle".into());
+                }
+                if self.log.last().map(|e| e.ev != "quiescent").unwrap_or(true) {
+                    return Err("events arrived after the previous word was declared quiescent".into());
+                }
+                self.log.clear();
+                self.runs = 0;
+                self.holder = false;
+                self.unlock_logged = false;
+                self.rel.clear();
+                verif::clear_gates();
+                return Ok(());
+            }
             for _ in 0..8 {
                 if !self.settle(Duration::from_secs(60)).await {
                     return Err("endpoint did not settle".into());
@@ -992,7 +1019,8 @@ mod c25 {
                         if !self.wait_count("report_done", k + 1, Duration::from_secs(60)).await {
                             return Err(format!("step {i} probe: the net report did not finish"));
                         }
-                        let n = self.rel.get(C).copied().unwrap_or(0) + 1;
+                        // every finished report is followed by an arrival at the pause point before the send
+                        let n = self.count("report_done");
                         if !self.wait_arrived(C, n, STEP).await {
                             return Err(format!("step {i} probe: task not at the pause point"));
                         }
@@ -1018,7 +1046,16 @@ mod c25 {
                             return Err(format!("step {i} send_done: the Actor did not take the done signal"));
                         }
                         self.sync();
-                        self.poll_lock();
+                        if self.count("unlocked") >= self.count("done_sent") {
+                            // this task released the lock before it signalled: nothing is left for it to do
+                            let k = self.count("run_finish");
+                            self.release(A);
+                            if !self.wait_count("run_finish", k + 1, STEP).await {
+                                return Err(format!("step {i} send_done: the task did not finish"));
+                            }
+                        } else {
+                            self.poll_lock();
+                        }
                     }
                     "on_done" => {
                         if !self.held_at(B) {
@@ -1142,6 +1179,271 @@ mod c25 {
             }
             verif::reset();
             d.ep.close().await;
+        });
+        out.finish();
+    }
+}
+
+/// C26, system level: drive a real `RelayActor` (with the `ActiveRelayActor`s it starts) against
+/// three in-process relay servers along words of specs/socket/HomeRelaySystem.tla
+/// (nc(p) = a net report with preferred relay p; recv(u) = the actor of u handles its next
+/// SetHomeRelay message -- a pause point holds it before).  Each word starts from "b and a
+/// connected, a is the home relay" (the setup is part of the recorded trace).  Output: the raw
+/// hook events with the advertised value where the hook recorded it.
+mod c26sys {
+    use std::{collections::HashMap, time::Instant};
+
+    use iroh::SecretKey;
+    use iroh_dns::verif;
+
+    use super::*;
+
+    #[derive(Deserialize)]
+    struct Step {
+        op: String,
+        url: String,
+    }
+    #[derive(Deserialize)]
+    struct Case {
+        word: Vec<Step>,
+    }
+    #[derive(Serialize, Clone, Default)]
+    struct Ev {
+        /// network_change | set | clear | read | write | done | recv | final
+        ev: String,
+        /// acting relay (a, b, c) or preferred relay of a network change
+        url: String,
+        home: String,
+        state: String,
+        is_home: bool,
+        connected: bool,
+    }
+    #[derive(Serialize, Default)]
+    struct Out {
+        case: usize,
+        events: Vec<Ev>,
+        skipped: Vec<(usize, String)>,
+        env_error: Option<String>,
+    }
+
+    const STEP: Duration = Duration::from_secs(20);
+    const SETTLE: Duration = Duration::from_millis(400);
+
+    struct Drv {
+        names: Vec<(String, RelayUrl)>,
+        log: Vec<Ev>,
+    }
+
+    impl Drv {
+        fn name_of(&self, url: &str) -> String {
+            if url.is_empty() || url == "none" {
+                return "none".into();
+            }
+            self.names.iter().find(|(_, u)| u.to_string() == url).map(|(n, _)| n.clone()).unwrap_or_else(|| url.to_string())
+        }
+        fn url_of(&self, name: &str) -> Option<RelayUrl> {
+            self.names.iter().find(|(n, _)| n == name).map(|(_, u)| u.clone())
+        }
+        fn label(&self, name: &str) -> String {
+            format!("c26.recv_set_home:{}", self.url_of(name).expect("relay name"))
+        }
+        fn sync(&mut self) -> usize {
+            let evs = verif::take_events();
+            let n = evs.len();
+            for e in evs {
+                let Some(kind) = e.label.strip_prefix("c26.") else { continue };
+                let f: HashMap<_, _> = e.fields.iter().cloned().collect();
+                let get = |k: &str| f.get(k).cloned().unwrap_or_default();
+                let mut ev = Ev { home: self.name_of(&get("home")), state: get("state"), ..Default::default() };
+                match kind {
+                    "network_change" => {
+                        ev.ev = "network_change".into();
+                        ev.url = self.name_of(&get("preferred"));
+                        ev.home = String::new();
+                    }
+                    "set" => {
+                        ev.ev = "set".into();
+                        ev.url = ev.home.clone();
+                    }
+                    "clear" => ev.ev = "clear".into(),
+                    "read" | "write" => {
+                        ev.ev = kind.into();
+                        ev.url = self.name_of(&get("actor"));
+                    }
+                    "status_done" => {
+                        ev.ev = "done".into();
+                        ev.url = self.name_of(&get("actor"));
+                    }
+                    "recv_set_home" => {
+                        ev.ev = "recv".into();
+                        ev.url = self.name_of(&get("actor"));
+                        ev.is_home = get("is_home") == "true";
+                        ev.connected = get("connected") == "true";
+                        ev.home = String::new();
+                    }
+                    _ => continue,
+                }
+                self.log.push(ev);
+            }
+            n
+        }
+        fn count(&self, ev: &str, url: &str) -> usize {
+            self.log.iter().filter(|e| e.ev == ev && (url.is_empty() || e.url == url)).count()
+        }
+        async fn wait_until(&mut self, t: Duration, mut cond: impl FnMut(&Drv) -> bool) -> bool {
+            let deadline = Instant::now() + t;
+            loop {
+                self.sync();
+                if cond(self) {
+                    return true;
+                }
+                if Instant::now() > deadline {
+                    return false;
+                }
+                tokio::time::sleep(Duration::from_millis(2)).await;
+            }
+        }
+        async fn settle(&mut self, max: Duration) {
+            let deadline = Instant::now() + max;
+            let mut quiet = Instant::now();
+            while quiet.elapsed() < SETTLE && Instant::now() < deadline {
+                if self.sync() > 0 {
+                    quiet = Instant::now();
+                }
+                tokio::time::sleep(Duration::from_millis(5)).await;
+            }
+        }
+    }
+
+    async fn force(d: &mut Drv, c: &Case, tls: rustls::ClientConfig, relay_map: iroh::RelayMap, key: SecretKey) -> Result<Vec<(usize, String)>, String> {
+        verif::reset();
+        verif::clear_gates();
+        let _ = verif::take_events();
+        d.log.clear();
+        verif::record(true);
+        let actor = hooks::RelayActorHandle::spawn(key, tls, relay_map);
+        let watch = actor.home_relay();
+        // setup: connect b, then a; afterwards both are connected and a is the home relay
+        for name in ["b", "a"] {
+            if !actor.network_change(d.url_of(name)).await {
+                return Err("relay actor gone".into());
+            }
+            let want = d.url_of(name);
+            let deadline = Instant::now() + Duration::from_secs(30);
+            loop {
+                if let Some((u, st)) = watch.get() {
+                    if Some(&u) == want.as_ref() && st == hooks::HomeRelayState::Connected {
+                        break;
+                    }
+                }
+                if Instant::now() > deadline {
+                    return Err(format!("setup: relay {name} did not become the connected home relay ({:?})", watch.get()));
+                }
+                tokio::time::sleep(Duration::from_millis(5)).await;
+            }
+        }
+        d.settle(Duration::from_secs(5)).await;
+        // from here on every actor is held before it handles a SetHomeRelay message
+        let mut released: HashMap<String, usize> = HashMap::new();
+        for (n, _) in d.names.clone() {
+            verif::arm(&d.label(&n), 1000);
+        }
+        let mut skipped = Vec::new();
+        for (i, s) in c.word.iter().enumerate() {
+            match s.op.as_str() {
+                "nc" => {
+                    let k = d.count("network_change", "");
+                    if !actor.network_change(d.url_of(&s.url)).await {
+                        return Err("relay actor gone".into());
+                    }
+                    if !d.wait_until(STEP, |d| d.count("network_change", "") > k).await {
+                        return Err(format!("step {i}: the RelayActor did not take the report"));
+                    }
+                    // on_network_change sends the SetHomeRelay messages before it returns; give it the turn
+                    tokio::time::sleep(Duration::from_millis(20)).await;
+                    d.sync();
+                }
+                "recv" => {
+                    let lab = d.label(&s.url);
+                    let rel = released.entry(s.url.clone()).or_default();
+                    let deadline = Instant::now() + Duration::from_secs(3);
+                    while verif::arrived(&lab) <= *rel && Instant::now() < deadline {
+                        tokio::time::sleep(Duration::from_millis(2)).await;
+                    }
+                    if verif::arrived(&lab) <= *rel {
+                        skipped.push((i, "no SetHomeRelay message waiting at this actor".into()));
+                        continue;
+                    }
+                    *rel += 1;
+                    let k = d.count("recv", &s.url);
+                    verif::release(&lab, 1);
+                    let url = s.url.clone();
+                    if !d.wait_until(STEP, |d| d.count("recv", &url) > k).await {
+                        return Err(format!("step {i}: actor {} did not handle its message", s.url));
+                    }
+                    tokio::time::sleep(Duration::from_millis(20)).await;
+                    d.sync();
+                }
+                other => return Err(format!("unknown step {other}")),
+            }
+        }
+        for (n, _) in d.names.clone() {
+            verif::release(&d.label(&n), 1_000_000);
+        }
+        d.settle(Duration::from_secs(10)).await;
+        let (home, state) = match watch.get() {
+            None => ("none".to_string(), "none".to_string()),
+            Some((u, s)) => (d.name_of(&u.to_string()), format!("{s:?}")),
+        };
+        d.log.push(Ev { ev: "final".into(), home, state, ..Default::default() });
+        actor.shutdown();
+        drop(actor);
+        tokio::time::sleep(Duration::from_millis(50)).await;
+        verif::record(false);
+        Ok(skipped)
+    }
+
+    pub fn run(args: &Args) {
+        let cases: Vec<Case> = read_ndjson(&args.path("in"));
+        let mut out = NdjsonOut::create(&args.path("out"));
+        let tls = iroh_relay::tls::CaTlsConfig::insecure_skip_verify()
+            .client_config(iroh_relay::tls::default_provider())
+            .expect("tls config");
+        let rt = tokio::runtime::Builder::new_current_thread().enable_all().build().unwrap();
+        rt.block_on(async {
+            let mut servers = Vec::new();
+            let mut names = Vec::new();
+            let mut map = None;
+            for n in ["a", "b", "c"] {
+                match iroh::test_utils::run_relay_server_with(false).await {
+                    Ok((m, url, server)) => {
+                        if map.is_none() {
+                            map = Some(m);
+                        }
+                        names.push((n.to_string(), url));
+                        servers.push(server);
+                    }
+                    Err(e) => {
+                        for case in 0..cases.len() {
+                            out.emit(&Out { case, env_error: Some(format!("relay server: {e:?}")), ..Default::default() });
+                        }
+                        return;
+                    }
+                }
+            }
+            let mut d = Drv { names, log: Vec::new() };
+            for (case, c) in cases.iter().enumerate() {
+                let mut key = [7u8; 32];
+                key[0] = (case % 250) as u8;
+                let mut o = Out { case, ..Default::default() };
+                match force(&mut d, c, tls.clone(), map.clone().expect("map"), SecretKey::from_bytes(&key)).await {
+                    Ok(skipped) => o.skipped = skipped,
+                    Err(e) => o.env_error = Some(e),
+                }
+                o.events = d.log.clone();
+                out.emit(&o);
+            }
+            verif::reset();
         });
         out.finish();
     }
